@@ -95,6 +95,7 @@ class _Trace:
 
     def event(self, ev):
         e = dict(ev)
+        e.pop("pipes", None)
         e["post"] = self.proj(ev["post"])
         e["target"] = self.v(ev["target"]) if ev["target"] else []
         e["mts"] = [self.v(m) for m in ev["mts"]]
